@@ -86,7 +86,7 @@ def run_case(case):
     F = fockref.get(norb)
     opts = {}
     if kind == "multislater":
-        opts["ms_ref"] = ["random", "aufbau", "random", "closed"][case["rep"] % 4] if na == nb else ["random", "aufbau"][case["rep"] % 2]
+        opts["ms_ref"] = ["inverted", "aufbau", "random", "closed"][case["rep"] % 4] if na == nb else ["inverted", "aufbau"][case["rep"] % 2]
         opts["ms_ndets"] = 10
     if kind in ("rhf", "uhf") and case["rep"] % 2 == 1:
         opts["complex_orbs"] = True   # these two kinds conjugate the trial orbitals consistently: complex orbitals are admissible
